@@ -1,0 +1,49 @@
+// +build verif
+
+package leanhelix
+
+import (
+	"github.com/orbs-network/lean-helix-go/services/interfaces"
+	"github.com/orbs-network/lean-helix-go/services/rawmessagesfilter"
+)
+
+// Verification hooks (build tag "verif" only): synchronous, single-threaded entry points that run
+// exactly the bodies of the select cases of WorkerLoop.Run, so that a deterministic scheduler can
+// drive real nodes one event at a time. No existing code is changed.
+
+func (lh *WorkerLoop) VerifDeliver(msg *interfaces.ConsensusRawMessage) {
+	parsedMessage := interfaces.ToConsensusMessage(msg)
+	lh.logger.Debug("LHFLOW LHMSG WORKERLOOP RECEIVED %v from %v for H=%d V=%d", parsedMessage.MessageType(), parsedMessage.SenderMemberId(), parsedMessage.BlockHeight(), parsedMessage.View())
+	lh.filter.HandleConsensusRawMessage(msg)
+}
+
+func (lh *WorkerLoop) VerifElection(trigger *interfaces.ElectionTrigger) {
+	if trigger == nil {
+		return
+	}
+	current := lh.state.HeightView()
+	if current.Height() != trigger.Hv.Height() || current.View() != trigger.Hv.View() {
+		return
+	}
+	trigger.MoveToNextLeader()
+}
+
+func (lh *WorkerLoop) VerifUpdateState(block interfaces.Block, prevBlockProofBytes []byte) {
+	lh.handleUpdateState(&blockWithProof{block: block, prevBlockProofBytes: prevBlockProofBytes})
+}
+
+func (lh *WorkerLoop) VerifDispose() {
+	lh.cleanupCurrentTerm()
+}
+
+func (lh *WorkerLoop) VerifFilter() *rawmessagesfilter.RawMessageFilter {
+	return lh.filter
+}
+
+func (lh *WorkerLoop) VerifInCommittee() bool {
+	return lh.leanHelixTerm != nil
+}
+
+func (m *MainLoop) VerifWorker() *WorkerLoop {
+	return m.worker
+}
